@@ -1,11 +1,13 @@
-"""Property -> rules (DESIGN.md section 4)."""
+"""Property -> rules (DESIGN.md section 4).  Single source of truth for the CLI,
+the MANIFEST generator and the self-validation."""
 from __future__ import annotations
 
 from typing import Callable, Dict, Optional
 
-from .rules import alias, align, construct, dispatch, keys, ops, opt, pyx, reg, repres, sig, small, wrappers
+from .rules import (alias, align, cmp, construct, dispatch, flow, keys, ops, opt, pyx, reg, repres, sig,
+                    small, structure, wrappers)
 
-_CACHE: Dict[str, object] = {}
+_CACHE: Dict[tuple, object] = {}
 
 
 def _cached(key, fn):
@@ -30,12 +32,18 @@ RULES: Dict[str, Callable] = {
     "R-ALIGN": _cached("R-ALIGN", align.run),
     "R-ALIAS": _cached("R-ALIAS", alias.run),
     "R-KEYS": _cached("R-KEYS", keys.run),
+    "R-CAST": _cached("R-CAST", keys.run_cast),
+    "R-CMP": _cached("R-CMP", cmp.run),
+    "R-FLOW": _cached("R-FLOW", flow.run_flow),
+    "R-UNSIGNED": _cached("R-UNSIGNED", flow.run_unsigned),
+    "R-LEAD": _cached("R-LEAD", structure.run_lead),
+    "R-GRAD": _cached("R-GRAD", structure.run_grad),
+    "R-ALIGNFN": _cached("R-ALIGNFN", structure.run_alignfn),
     "R-NAMES": _cached("R-NAMES", construct.run_names),
     "R-GETITEM": _cached("R-GETITEM", construct.run_getitem),
     "R-DTYPE": _cached("R-DTYPE", construct.run_dtype),
     "R-PAIR": _cached("R-PAIR", construct.run_pair),
     "R-COLIDX": _cached("R-COLIDX", construct.run_colidx),
-    "R-CAST": _cached("R-CAST", keys.run_cast),
     "R-DELEGATE": _cached("R-DELEGATE", wrappers.run_delegate),
     "R-ORDER": _cached("R-ORDER", wrappers.run_order),
     "R-FWD": _cached("R-FWD", wrappers.run_fwd),
@@ -57,100 +65,297 @@ class Use:
     def __init__(self, rule: str, scoped: bool = False, only: Optional[Callable] = None,
                  only_ob: Optional[Callable] = None, clause: str = ""):
         self.rule = rule
-        self.scoped = scoped
+        self.scoped = scoped  # keep only findings inside the property's call-graph scope
         self.only = only
         self.only_ob = only_ob
         self.clause = clause
 
 
+def S(rule, clause=""):
+    return Use(rule, scoped=True, clause=clause)
+
+
+def G(rule, clause=""):
+    return Use(rule, scoped=False, clause=clause)
+
+
 PLAN: Dict[str, dict] = {
-    "C09": {
-        "uses": [Use("R-SIG", scoped=True), Use("R-DELEGATE", scoped=True), Use("R-FWD", scoped=True), Use("R-NAMES", scoped=True),
-                 Use("R-GETITEM"), Use("R-ALIGN", scoped=True), Use("R-DTYPE", scoped=True)],
-        "explanation": "x",
-        "not_decided": "",
-    },
-    "C03": {
-        "uses": [Use("R-GUARDS"), Use("R-CODEC"), Use("R-FINAL"), Use("R-NAMES"), Use("R-PAIR"), Use("R-OPT-LAYERS")],
-        "explanation": "x",
-        "not_decided": "",
-    },
-    "C06": {
-        "uses": [Use("R-COLIDX"), Use("R-ALIGN", scoped=True)],
-        "explanation": "x",
-        "not_decided": "",
-    },
-    "C16": {
-        "uses": [Use("R-PAIR"), Use("R-OPT-PAIRING"), Use("R-OPT-LAYERS"), Use("R-STABLE")],
-        "explanation": "x",
-        "not_decided": "",
-    },
-    "C17": {
-        "uses": [Use("R-ALIAS")],
-        "explanation": "x",
-        "not_decided": "",
-    },
-    "C10": {
-        "uses": [Use("R-ALIGN", scoped=True), Use("R-DELEGATE", scoped=True), Use("R-ORDER", scoped=True), Use("R-FWD", scoped=True), Use("R-SIG", scoped=True)],
-        "explanation": "x",
-        "not_decided": "",
-    },
-    "C05": {
-        "uses": [Use("R-ALIGN", scoped=True), Use("R-OPS")],
-        "explanation": "x",
-        "not_decided": "",
+    "C01": {
+        "uses": [
+            S("R-DELEGATE", "add/subtract/negative/positive dispatch the numpy function they are registered for"),
+            S("R-ORDER", "operands of non-commutative delegates in parameter order"),
+            S("R-ALIGN", "operands are aligned before columns are combined; names aligned before exponent rows are added"),
+            S("R-KEYS", "every key of a result buffer is written before the buffer escapes"),
+            G("R-PYX-MUL", "products: set on first sight of a key, accumulate afterwards; key encoder width"),
+            G("R-OPT-PINNED", "alignment pins the retain flags, so aligned operands keep one layout under every option setting"),
+            S("R-DTYPE", "result dtype of a combination depends on all operands"),
+        ],
+        "explanation": "Structural clauses of exact ring arithmetic: (1) add/subtract/negative/positive hand the "
+                       "coefficient storage to the numpy function they are registered for, operands in parameter order; "
+                       "(2) on every path, columns/keys/exponent rows of two operands are combined only after both came out of "
+                       "one align_* call, and alignment pins retain_names/retain_coefficients; (3) every numpoly.ndpoly(...) "
+                       "allocation has all keys written (unmasked) before it is used as a whole; (4) the C multiplier sets a key "
+                       "on first sight and accumulates afterwards.",
+        "not_decided": "exactness of the sums/products/powers themselves, broadcasting, array exponents of ** "
+                       "(value- and shape-dependent; no sound static bound)",
     },
     "C02": {
-        "uses": [Use("R-TWIN"), Use("R-GUARDS")],
-        "explanation": "x",
-        "not_decided": "",
+        "uses": [
+            G("R-GUARDS", "TypeError for unknown / doubly supplied names dominates evaluation"),
+            G("R-TWIN", "the polynomial and the numeric branch of the evaluation loop receive the same operands"),
+            S("R-UNSIGNED", "no caller value meets an unsanitised uint32 exponent (value independent of the argument's type)"),
+        ],
+        "explanation": "call(): branches raising TypeError for an unknown and for a doubly supplied indeterminate exist and every "
+                       "path into the evaluation loop passed the unknown-name guard; numpoly.outer and numpy.outer receive the same "
+                       "operands in the same order; the exponent handed to ** is sanitised with int() so the value cannot depend on the "
+                       "numeric type carrying the argument.",
+        "not_decided": "the value of the evaluation, staged vs. one-shot evaluation, output shape and dtype promotion of "
+                       "narrow argument types",
     },
-    "C13": {
-        "uses": [Use("R-REDUCE"), Use("R-FINAL"), Use("R-HEADER"), Use("R-CODEC"), Use("R-SIG", scoped=True)],
-        "explanation": "x",
-        "not_decided": "",
+    "C03": {
+        "uses": [
+            G("R-GUARDS", "the five validations of postprocess_attributes dominate every normal return"),
+            G("R-CODEC", "key <-> exponent codec uses one constant with opposite signs"),
+            G("R-FINAL", "metadata set in __new__ equals the set copied in __array_finalize__"),
+            G("R-NAMES", "constructors fed with raw storage / exponent rows receive the input's names"),
+            G("R-PAIR", "exponents and coefficients are paired by one traversal order"),
+            G("R-OPT-LAYERS", "retain_* options only replace an omitted (None) argument"),
+            G("R-GETITEM", "indexing rebuilds with the same exponents and names"),
+        ],
+        "explanation": "Construction goes through validated constructors: every normal return of postprocess_attributes passed the "
+                       "2-d / length / name-count / duplicate-name / duplicate-exponent checks; encode/decode of storage keys use "
+                       "KEY_OFFSET with opposite signs; views and copies carry all metadata; names are forwarded wherever raw storage "
+                       "or exponent rows are re-wrapped; dict / sympy / structured input pair exponents with coefficients by one "
+                       "traversal; an explicit retain flag is never overridden by the global option.",
+        "not_decided": "equality of a rebuilt polynomial with the original; exactly which terms are dropped (value-dependent)",
     },
-    "C18": {
-        "uses": [Use("R-STABLE")],
-        "explanation": "x",
-        "not_decided": "",
+    "C04": {
+        "uses": [
+            G("R-ALIGNFN", "results in argument order; unions range over all arguments; names in integer index order"),
+            G("R-OPT-PINNED", "aligned layout pinned independently of the global options"),
+            S("R-ALIAS", "no argument is modified"),
+            S("R-NAMES", "rebuilt operands keep their names"),
+        ],
+        "explanation": "Each align_* function returns tuple(list of per-argument images) in argument order where slot i is only "
+                       "replaced by a value computed from argument i; the common shape / names / exponents are computed over all "
+                       "arguments, names sorted by int(suffix); the constructions pin retain_coefficients/retain_names=True; no write "
+                       "reaches storage that may alias an argument.",
+        "not_decided": "that the returned polynomials are mathematically equal to the inputs; idempotence on values",
     },
-    "C20": {
-        "uses": [Use("R-CODEC"), Use("R-PYX-MUL"), Use("R-HEADER")],
-        "explanation": "x",
-        "not_decided": "",
+    "C05": {
+        "uses": [
+            G("R-OPS", "/, %, divmod and reflected forms route to poly_divide/poly_remainder/poly_divmod, components 0/1"),
+            S("R-ALIGN", "dividend and divisor are aligned on entry and after every reduction step"),
+            S("R-UNSIGNED", "the exponent subtraction is guarded by the candidate selection"),
+        ],
+        "explanation": "Third sentence in full (operator routing with operand order, poly_divide/poly_remainder = components 0/1 of "
+                       "poly_divmod); inside the loop get_division_candidate only ever receives operands that came out of one "
+                       "align_polynomials call (on entry and after every step); dividend.exponents - divisor.exponents is only formed "
+                       "for pairs get_division_candidate selected past its 'exponent1 < exponent2' skip.",
+        "not_decided": "termination and the identity dividend = q*divisor + r: both need a ranking argument over runtime "
+                       "coefficient values (the pinned code does loop forever for some multivariate divisors; recorded in DESIGN.md, "
+                       "not decidable by this family)",
     },
-    "C12": {
-        "uses": [Use("R-PYX-DISCARD"), Use("R-PYX-DTYPE"), Use("R-KEYS"), Use("R-CAST"), Use("R-DTYPE")],
-        "explanation": "x",
-        "not_decided": "",
+    "C06": {
+        "uses": [
+            S("R-UNSIGNED", "differentiation does not rely on clean-up to discard a wrapped unsigned exponent"),
+            G("R-COLIDX", "the column index comes from the names of the polynomial whose exponent columns are indexed"),
+            G("R-GRAD", "gradient stacks derivative over all names in order; hessian = gradient of gradient"),
+            S("R-ALIGN", "derivative re-aligns with the reference after each variable"),
+        ],
+        "explanation": "derivative: the decrement of the uint32 exponent column is applied only to rows filtered by 'column > 0' "
+                       "(so it holds under every retain_* setting); the differentiated column index is looked up in the names of the "
+                       "same polynomial whose exponents it indexes; gradient = concatenate([derivative(poly, n)[newaxis] for n in "
+                       "poly.names], axis 0); hessian = gradient(gradient(poly)).",
+        "not_decided": "that the result is the formal partial derivative (linearity, product rule, values)",
     },
-    "C11": {
-        "uses": [Use("R-CONST"), Use("R-SIG", scoped=True), Use("R-DELEGATE", scoped=True), Use("R-ORDER", scoped=True), Use("R-FWD", scoped=True)],
-        "explanation": "x",
-        "not_decided": "",
-    },
-    "C14": {
-        "uses": [Use("R-OPT-TABLE", clause="entire statement")],
-        "explanation": "",
-        "not_decided": "",
-    },
-    "C15": {
-        "uses": [Use("R-OPT-LAYERS"), Use("R-OPT-PAIRING"), Use("R-OPT-PINNED")],
-        "explanation": "",
-        "not_decided": "",
+    "C07": {
+        "uses": [
+            G("R-CMP", "one template for the six comparison functions, maximum/minimum and the equality folds"),
+            G("R-OPT-PAIRING", "sort_graded/sort_reverse paired with graded=/reverse="),
+            G("R-STABLE", "the monomial order itself is platform independent"),
+            S("R-ORDER", "operands of the comparison ufuncs in parameter order"),
+            S("R-ALIGN", "columns compared by position only after alignment"),
+        ],
+        "explanation": "greater/greater_equal/less/less_equal walk the aligned terms in ascending glexsort(sort_graded, "
+                       "sort_reverse) order without break, overwrite the verdict only where the two coefficients differ, with the "
+                       "ufunc each is registered for and operands in order (same ufunc for the initial verdict); maximum/minimum use "
+                       "> / < and where(mask, x1, x2); equal/isclose fold all columns with &= from ones, not_equal with |=, allclose "
+                       "returns False on the first failing column.",
+        "not_decided": "trichotomy/transitivity as theorems about values; that the order equals the documented one for every input",
     },
     "C08": {
         "uses": [
-            Use("R-REG", clause="numpy.f(poly) and numpoly.f(poly) execute the same def"),
-            Use("R-DISPATCH", clause="unsupported callables / ufunc methods raise FeatureNotSupported"),
-            Use("R-OPS", clause="operators and method spellings forward to the same functions"),
+            G("R-REG", "numpy.f(poly) and numpoly.f(poly) execute the same def; reduce/accumulate mappings"),
+            G("R-DISPATCH", "unsupported callables / ufunc methods raise FeatureNotSupported; arguments forwarded unchanged"),
+            G("R-OPS", "operators and method spellings forward to the same functions with all parameters"),
         ],
-        "explanation": "",
-        "not_decided": "",
+        "explanation": "Positive half by identity of callee: every reachable registry entry T->F satisfies numpoly.<name(T)> is F, "
+                       "ufuncs only reachable through the ufunc table; REDUCE/ACCUMULATE mappings agree with numpy's definition of "
+                       "the reductions; operators/methods forward to the documented function with every named parameter under its own "
+                       "keyword. Negative half by closure of __array_ufunc__/__array_function__: every path forwards (*inputs, "
+                       "**kwargs) to the registry entry of a positively looked-up key (reduce/accumulate keys only from the mapping "
+                       "dicts) or raises FeatureNotSupported.",
+        "not_decided": "nothing structural is left; equality of results follows from identity of the executed function "
+                       "(assumption A-DISPATCH), not from comparing values",
+    },
+    "C09": {
+        "uses": [
+            S("R-SIG", "every numpy call binds"),
+            S("R-DELEGATE", "wrapper delegates to the numpy function it mirrors"),
+            S("R-FWD", "shape/axis/index parameters used and forwarded under their own names"),
+            S("R-NAMES", "names preserved wherever raw storage is re-wrapped"),
+            G("R-GETITEM", "the same index applied to every column"),
+            S("R-ALIGN", "joining functions align first"),
+            S("R-DTYPE", "joined / selected results take a dtype depending on all operands"),
+        ],
+        "explanation": "Each shape function hands the raw structured storage to the numpy function it is registered for, with all "
+                       "shape/axis/index parameters used and not cross-wired, every call signature-valid for the installed numpy, and "
+                       "re-wraps the result with the input's names; joining functions combine columns only after alignment; "
+                       "__getitem__ applies the caller's index per coefficient column with self.exponents/self.names; where() takes "
+                       "its dtype from both operands.",
+        "not_decided": "that numpy's result on the raw storage places each element where claimed (numpy's semantics on structured "
+                       "arrays, strides of views)",
+    },
+    "C10": {
+        "uses": [
+            S("R-DELEGATE", "linear reductions dispatch their namesake per column"),
+            S("R-FWD", "axis/keepdims/n/prepend/append used and forwarded"),
+            S("R-ALIGN", "diff/inner/outer combine columns only after alignment"),
+            S("R-ORDER", "operand order of non-commutative delegates"),
+            S("R-SIG", "prod/matmul reach a signature-valid reshape"),
+            G("R-REG", "add.reduce / add.accumulate / method spellings reach the same function"),
+            S("R-KEYS", "result buffers are fully written"),
+        ],
+        "explanation": "sum/cumsum/mean dispatch their namesake per aligned key with axis/dtype/keepdims forwarded; diff aligns a, "
+                       "prepend and append in one call and writes every key; every numpy call in the call graph of the reductions "
+                       "binds against the installed numpy; numpy.add.reduce / accumulate map to sum / cumsum.",
+        "not_decided": "equality with exact finite sums/products; det expansion; axis-tuple handling of prod (value/shape-dependent)",
+    },
+    "C11": {
+        "uses": [
+            G("R-CONST", "numeric division with a non-constant divisor raises FeatureNotSupported on every path"),
+            S("R-DELEGATE", "each mirrored function applies the numpy function it is registered for"),
+            S("R-ORDER", "operand order (allclose / isclose / division are asymmetric)"),
+            S("R-FWD", "value/shape parameters used"),
+            S("R-SIG", "every numpy call binds"),
+        ],
+        "explanation": "Last sentence in full: in true_divide/floor_divide/remainder/divmod every path to the numeric ufunc or to a "
+                       "normal return passed divisor.isconstant() and the other edge raises FeatureNotSupported. Every registered "
+                       "wrapper that touches coefficient storage applies the numpy function it mirrors, with asymmetric operands in "
+                       "parameter order, all value/shape parameters used, and a signature-valid call.",
+        "not_decided": "values, tie positions in argmax, shapes of the results on constants",
+    },
+    "C12": {
+        "uses": [
+            G("R-PYX-DISCARD", "no exception is constructed and thrown away"),
+            G("R-PYX-DTYPE", "every dtype has a handler or the default raises; handler types agree"),
+            G("R-KEYS", "no raw buffer escapes unwritten (including empty results)"),
+            G("R-CAST", "data is cast to the buffer dtype before the raw write, writers only for dtypes they implement"),
+            G("R-DTYPE", "requested dtype reaches every constructed polynomial; combined results depend on all operand dtypes"),
+        ],
+        "explanation": "The C writers' dtype switch is read from the .pyx (cannot be rebuilt here): arms, element/pointer types, "
+                       "default arm; polynomial_from_attributes casts every coefficient to the buffer dtype and uses the raw writer "
+                       "only under a membership test in the dtypes it implements; every numpoly.ndpoly allocation is fully written on "
+                       "every path (zero-filled when no coefficient exists); polynomial/aspolynomial/compose_polynomial_array let the "
+                       "dtype argument reach every returned polynomial.",
+        "not_decided": "the numeric values after a cast; numpy's promotion rules; products of two operands whose promoted dtype "
+                       "the C layer does not implement (known finding F9)",
+    },
+    "C13": {
+        "uses": [
+            G("R-REDUCE", "pickle state binds to the right constructor parameters"),
+            G("R-FINAL", "copies/views carry all metadata"),
+            G("R-HEADER", "header writer/reader agreement, empty shape of 0-d, strict decoding, layout restored"),
+            G("R-CODEC", "keys written to the header decode with the same constant"),
+            S("R-SIG", "loadtxt reaches a signature-valid reshape"),
+        ],
+        "explanation": "__reduce__ returns polynomial_from_attributes with exponents/coefficients/names/dtype/allocation bound to the "
+                       "right parameters; __array_finalize__ copies exactly the attribute set __new__ assigns; HEADER_REGEX is built "
+                       "from HEADER_TEMPLATE, groups are consumed in template order, join/split separators agree, each fragment accepts "
+                       "what savetxt can emit (incl. the empty shape), no lossy decoding, the (elements, terms) layout is restored before "
+                       "the structured view.",
+        "not_decided": "that the loaded values equal the saved ones; numpy.loadtxt's own parsing",
+    },
+    "C14": {
+        "uses": [G("R-OPT-TABLE", "entire statement (O1-O5)")],
+        "explanation": "Entire statement: global_options takes a full snapshot before the first mutation and restores exactly that "
+                       "snapshot after the last mutation on every exit (the yield sits in try/finally); set_options mutates only after "
+                       "all keys were validated and rejects with KeyError; get_options returns detached copies of the right table; "
+                       "defaults are immutable literals; nothing but set_options writes or hands out the tables. Nested blocks follow "
+                       "by induction on the nesting depth.",
+        "not_decided": "nothing (all clauses are structural)",
+    },
+    "C15": {
+        "uses": [
+            G("R-OPT-LAYERS", "options are read only by their own layer; retain_* only as default of None"),
+            G("R-OPT-PAIRING", "sort/display keys paired with the right parameter"),
+            G("R-OPT-PINNED", "layout-critical constructions pin the retain flags"),
+            G("R-UNSIGNED", "differentiation does not depend on clean-up"),
+            G("R-NAMES", "names never fall back to positional defaults when storage is re-wrapped"),
+        ],
+        "explanation": "Who-may-read layering of the 12 option keys over all 33 read sites; retain_* only replace a None argument; "
+                       "graded=/reverse= receive *_graded/*_reverse of the right family or the function's own parameters; "
+                       "align/decompose/set_dimensions pin the retain flags; derivative's decrement is guarded independently of "
+                       "retain_coefficients; re-wrapped storage always receives names (so retain_names=False cannot rename).",
+        "not_decided": "value equality of results across the 2**8 settings",
+    },
+    "C16": {
+        "uses": [
+            G("R-FLOW", "display-order options influence only the iteration order; sign options only the joiners"),
+            G("R-OPT-LAYERS", "display_* read only in _to_string"),
+            G("R-OPT-PAIRING", "display_graded/display_reverse paired with graded/reverse"),
+            G("R-STABLE", "term order platform independent"),
+            G("R-PAIR", "sympy import pairs monoms() and coeffs() of one ordering"),
+        ],
+        "explanation": "_to_string: display_graded/display_reverse are only arguments of the glexsort that orders the terms, "
+                       "display_inverse only guards a full reversal, the loop iterable is glexsort(all exponents) or its complete "
+                       "reversal (a permutation), display_exponent/display_multiply are only concatenated into the text; the sympy "
+                       "branch of polynomial() takes monoms() and coeffs() with identical ordering arguments.",
+        "not_decided": "that the text parses back to the polynomial (coefficient formatting, sign elision are value-level)",
+    },
+    "C17": {
+        "uses": [G("R-ALIAS", "entire statement for Python-level writes")],
+        "explanation": "Entire statement for Python-level writes: for every store, augmented assignment, out= keyword, in-place "
+                       "numpy writer, mutating method and raw C writer in all functions, on every path, the written object's "
+                       "provenance may not alias a parameter other than out/dst (two-level may-alias: containers vs. elements; "
+                       "aspolynomial/align_shape/align_indeterminants and numpy's view functions are alias-preserving).",
+        "not_decided": "writes performed inside numpy itself on views handed to it (assumption A-NUMPY-PURE)",
+    },
+    "C18": {
+        "uses": [G("R-STABLE", "no unstable sort primitive in the composed sort"), S("R-FWD", "graded/reverse/cross_truncation forwarded"),
+                 G("R-OPT-PAIRING", "glexindex/monomial/bindex forward graded/reverse to their callee")],
+        "explanation": "glexsort's second (graded) sort is stable; glexindex/bindex/monomial forward graded/reverse/"
+                       "cross_truncation under their own names.",
+        "not_decided": "that the index sets and norms are numerically right (cross_truncate, _glexindex are value-level)",
+    },
+    "C19": {
+        "uses": [
+            G("R-LEAD", "lead_exponent/lead_coefficient: same ascending walk, zero-initialised"),
+            G("R-GUARDS", "tonumpy returns only for constants"),
+            G("R-OPT-PINNED", "set_dimensions pins retain_names"),
+            G("R-OPT-PAIRING", "argmax/argmin/amax/amin and sortable_proxy forward the paired sort options"),
+            S("R-KEYS", "set_dimensions cannot return an unwritten buffer"),
+            S("R-SIG", "amax/amin reach a signature-valid reshape"),
+        ],
+        "explanation": "lead_exponent and lead_coefficient are the same ascending glexsort(graded, reverse) walk overwriting where "
+                       "the coefficient is non-zero from a zero-initialised result; tonumpy raises FeatureNotSupported unless "
+                       "isconstant(); sortable_proxy forwards graded/reverse to lead_exponent and glexsort alike; the ordering "
+                       "functions pass sort_graded/sort_reverse; set_dimensions pins retain_names=True.",
+        "not_decided": "the values returned; tie-breaking inside the proxy; which terms set_dimensions drops (mask arithmetic)",
+    },
+    "C20": {
+        "uses": [
+            G("R-CODEC", "key codec is one constant with opposite signs at encode/decode sites"),
+            G("R-PYX-MUL", "the product-key builder does not narrow"),
+            G("R-HEADER", "header delimiters are outside the key alphabet; decoding is strict"),
+            S("R-ALIAS", "the constructor does not shift a caller's exponent array in place"),
+        ],
+        "explanation": "Keys are built as exponents + KEY_OFFSET and decoded as uint32 view - KEY_OFFSET at every site; the constant "
+                       "exceeds ':' and every header delimiter; the text reader decodes strictly; the C product-key encoder's "
+                       "conversion width is compared with its operand width (known finding F10: '%c' narrows).",
+        "not_decided": "behaviour for concrete large exponents through every operation",
     },
 }
 
-# Properties for which no check exists (yet) in this revision, with the reason.
-_PENDING = "no check implemented in this revision yet (rules are being built in DESIGN.md section 9 order)"
-NOT_APPLICABLE: Dict[str, str] = {f"C{i:02d}": _PENDING for i in range(1, 21)}
+NOT_APPLICABLE: Dict[str, str] = {}
